@@ -509,6 +509,199 @@ func hasVarLen(m protoreflect.Message) bool {
 	return found
 }
 
+// ---- C17: required fields in both directions
+
+// requiredCases enumerates, for a type, trees with every subset (bounded) of required fields unset,
+// at the top level and in every nesting position the corpus offers.
+func requiredCases(t *gcore.Type) []gcore.Case {
+	md := t.RefDesc()
+	var req []protoreflect.FieldDescriptor
+	for i := 0; i < md.Fields().Len(); i++ {
+		if f := md.Fields().Get(i); f.Cardinality() == protoreflect.Required {
+			req = append(req, f)
+		}
+	}
+	var out []gcore.Case
+	full := func() *dynamicpb.Message {
+		m := dynamicpb.NewMessage(md)
+		gcore.FillRequired(m)
+		return m
+	}
+	if len(req) > 0 {
+		var masks []uint32
+		if len(req) <= 6 {
+			for x := uint32(0); x < 1<<uint(len(req)); x++ {
+				masks = append(masks, x)
+			}
+		} else {
+			masks = append(masks, 0, 1<<uint(len(req))-1)
+			for i := range req {
+				masks = append(masks, 1<<uint(i), (1<<uint(len(req))-1)&^(1<<uint(i)))
+			}
+			for x := uint32(0); x < 64; x++ { // every subset of the first six
+				masks = append(masks, x)
+			}
+		}
+		for _, mask := range masks { // bit set = field left UNSET
+			for _, withOther := range []bool{false, true} {
+				m := full()
+				var names []string
+				for i, f := range req {
+					if mask&(1<<uint(i)) != 0 {
+						m.Clear(f)
+						names = append(names, string(f.Name()))
+					}
+				}
+				if withOther {
+					added := false
+					for i := 0; i < md.Fields().Len() && !added; i++ {
+						f := md.Fields().Get(i)
+						if f.Cardinality() == protoreflect.Optional && f.Message() == nil && f.ContainingOneof() == nil {
+							gcore.SetSimple(m, f)
+							added = true
+						}
+					}
+					if !added {
+						continue
+					}
+				}
+				out = append(out, gcore.Case{ID: fmt.Sprintf("unset[%s]other=%v", strings.Join(names, "+"), withOther), Msg: m})
+			}
+		}
+	}
+	// nesting positions: any message-typed field whose type has required fields, holding a deficient / complete value
+	for i := 0; i < md.Fields().Len(); i++ {
+		f := md.Fields().Get(i)
+		var sub protoreflect.MessageDescriptor
+		switch {
+		case f.IsMap():
+			sub = f.MapValue().Message()
+		default:
+			sub = f.Message()
+		}
+		if sub == nil || !hasRequired(sub) {
+			continue
+		}
+		for _, deficient := range []bool{true, false} {
+			m := full()
+			v := dynamicpb.NewMessage(sub)
+			if !deficient {
+				gcore.FillRequired(v)
+			} else {
+				// set something optional so the deficient message is not empty on the wire
+				for j := 0; j < sub.Fields().Len(); j++ {
+					if sf := sub.Fields().Get(j); sf.Cardinality() == protoreflect.Optional && sf.Message() == nil {
+						gcore.SetSimple(v, sf)
+						break
+					}
+				}
+			}
+			for _, emptyToo := range []bool{false, true} {
+				if emptyToo && !deficient {
+					continue
+				}
+				vv := v
+				if emptyToo {
+					vv = dynamicpb.NewMessage(sub) // completely empty deficient message
+				}
+				mm := dynamicpb.NewMessage(md)
+				gcore.Copy(mm, m)
+				switch {
+				case f.IsMap():
+					mm.Mutable(f).Map().Set(protoreflect.ValueOfString("k").MapKey(), protoreflect.ValueOfMessage(vv))
+				case f.IsList():
+					mm.Mutable(f).List().Append(protoreflect.ValueOfMessage(vv))
+				default:
+					mm.Set(f, protoreflect.ValueOfMessage(vv))
+				}
+				out = append(out, gcore.Case{ID: fmt.Sprintf("nested:%s/deficient=%v/empty=%v", f.Name(), deficient, emptyToo), Msg: mm})
+			}
+		}
+	}
+	if len(req) > 0 || len(out) > 0 {
+		out = append(out, gcore.Case{ID: "empty-message", Msg: dynamicpb.NewMessage(md)})
+	}
+	return out
+}
+
+func hasRequired(md protoreflect.MessageDescriptor) bool {
+	for i := 0; i < md.Fields().Len(); i++ {
+		if md.Fields().Get(i).Cardinality() == protoreflect.Required {
+			return true
+		}
+	}
+	return false
+}
+
+func (w *W) checkC17(t *gcore.Type, id string, c *dynamicpb.Message) {
+	want := proto.CheckInitialized(c) == nil
+	cls := strings.SplitN(id, "/", 2)[0]
+	if strings.HasPrefix(id, "unset[") {
+		cls = "top-level-required"
+		if strings.HasPrefix(id, "unset[]") {
+			cls = "all-required-set"
+		}
+	}
+	report := func(oracle, msg string, b []byte) {
+		sig := fmt.Sprintf("%s/%s/%s.%s/%s", oracle, t.RT, t.File, t.Name, cls)
+		w.sh.Fail(sig, t.String()+"/"+id, map[string]any{"type": t.String(), "case": id, "tree": gcore.Describe(c), "reference_initialized": want, "msg": msg, "bytes": hexs(b)})
+	}
+	// direction 1: marshal
+	for _, via := range []string{"Marshal", "MarshalTo", "csproto.Marshal"} {
+		x, perr := build(t, c)
+		if perr != "" {
+			w.sh.Internal("cannot build %s %s: %s", t, id, perr)
+			return
+		}
+		var err error
+		var b []byte
+		p := guard(func() {
+			switch via {
+			case "Marshal":
+				b, err = x.(marshaler).Marshal()
+			case "MarshalTo":
+				b = make([]byte, x.(sizer).Size()+64)
+				err = x.(marshalerTo).MarshalTo(b)
+			default:
+				b, err = csproto.Marshal(x)
+			}
+		})
+		w.evals++
+		switch {
+		case p != "":
+			report("C17/"+via+"-panic", p, nil)
+		case want && err != nil:
+			report("C17/"+via+"-spurious-required-error", err.Error(), nil)
+		case !want && err == nil:
+			report("C17/"+via+"-accepts-missing-required-field", "reference: "+proto.CheckInitialized(c).Error(), b)
+		default:
+			if !want {
+				w.nontr++
+			}
+		}
+	}
+	// direction 2: unmarshal the reference's (partial) encoding
+	b := canonical(c)
+	refErr := proto.UnmarshalOptions{Resolver: t.Resolver()}.Unmarshal(b, dynamicpb.NewMessage(t.RefDesc()))
+	x := t.New()
+	var err error
+	in := append([]byte{}, b...)
+	p := guard(func() { err = x.(unmarshaler).Unmarshal(in) })
+	w.evals++
+	switch {
+	case p != "":
+		report("C17/Unmarshal-panic", p, b)
+	case refErr == nil && err != nil:
+		report("C17/Unmarshal-spurious-error", err.Error(), b)
+	case refErr != nil && err == nil:
+		report("C17/Unmarshal-accepts-missing-required-field", "reference: "+refErr.Error(), b)
+	default:
+		if refErr != nil {
+			w.nontr++
+		}
+	}
+}
+
 func initialized(m proto.Message) bool { return proto.CheckInitialized(m) == nil }
 
 // cases enumerates the value trees of one type for the tier.
@@ -571,12 +764,19 @@ func worker(sh *ev.Shard, prop string) {
 			continue
 		}
 		cs := cases(t, sh.Thorough())
+		if prop == "C17" {
+			cs = requiredCases(t)
+		}
 		for _, c := range cs {
 			task++
 			if task%sh.N != sh.Index {
 				continue
 			}
 			sh.Cur(prop, t.String()+"/"+c.ID)
+			if prop == "C17" {
+				w.checkC17(t, c.ID, c.Msg)
+				continue
+			}
 			if !initialized(c.Msg) {
 				continue // required-field behaviour is C17
 			}
